@@ -310,7 +310,7 @@ def run_rules(ctx):
         return
     except AnalysisError as why:
         # the ordering analysis could not extract the pipeline (helpers, other control flow): decide on the table instead
-        ctx.rules[:] = [r for r in ctx.rules if not r.id.startswith("R14.")]
+        ctx.rules[:] = [r for r in ctx.rules if not r.id.startswith("R14.") or r.id == "R14.5"]
         res = table_eval(prog, f)
         rs = {rid: ctx.rule(rid, t, floor=1) for rid, t in (
             ("R14.1", "exactly one leading '/' is removed from the pointer, never a run of them"),
